@@ -64,3 +64,42 @@ fn c10_boxed_unsat_convert_roundtrip() {
     assert!(!bool::from(u.is_negative()) && !bool::from(v.is_negative()));
     core::mem::forget((a, b, u, v, back, back2));
 }
+
+// ---------------------------------------------------------------- sizing of the work integers and the iteration count call-site
+//@@ extract file=modular/safegcd/boxed.rs from="iterations(" to=" {\n        (delta, matrix)" sig="pub(super) fn __verif_boxed_divsteps_count(f_0: &BoxedUnsatInt, g: &mut BoxedUnsatInt) -> usize" ret=""
+
+//@ prop=C10,C11 tier=quick profile=k64 funcs="safegcd::boxed::unsat_nlimbs_for_sat_nlimbs,safegcd_nlimbs!" bound="every saturated limb count 1..=65536 (precisions up to 4 Mbit): the work integers have the documented headroom bits <= 62*nlimbs - 64 (src/macros.rs), and the fixed-size macro gives the same count" free_bits=17
+#[kani::proof]
+fn c10_boxed_unsat_nlimbs_headroom() {
+    let n: usize = kani::any();
+    kani::assume(1 <= n && n <= 65536);
+    let bits = n * 64;
+    let u = super::unsat_nlimbs_for_sat_nlimbs(n);
+    assert!(u * 62 >= bits + 64);
+    assert!(safegcd_nlimbs!(bits) * 62 >= bits + 64);
+    assert!(u == safegcd_nlimbs!(bits)); // boxed and fixed routes size their work integers alike (C15)
+    kani::cover!(n == 31);
+}
+
+//@ prop=C10 tier=quick profile=k64 funcs="safegcd::boxed::divsteps (slice: the loop bound expression),safegcd::iterations,BoxedUnsatInt::bits" bound="3 unsaturated limbs: every pair of non-negative well-formed f_0, g: the loop bound is at least the Bernstein-Yang count for max(bits(f_0), bits(g)); the divstep loop body itself is not decided" free_bits=372 assumes="cut point: f_0, g well-formed (limbs < 2^62) and non-negative"
+#[kani::proof]
+#[kani::unwind(8)]
+fn c10_boxed_divsteps_count_covers_both_operands() {
+    let fl: [u64; 3] = kani::any();
+    let gl: [u64; 3] = kani::any();
+    let mut i = 0;
+    while i < 3 {
+        kani::assume(fl[i] <= M && gl[i] <= M);
+        i += 1;
+    }
+    kani::assume(fl[2] >> 61 == 0 && gl[2] >> 61 == 0);
+    let f = BoxedUnsatInt(Box::new(fl));
+    let mut g = BoxedUnsatInt(Box::new(gl));
+    let (fb, gb) = (f.bits(), g.bits());
+    let m = super::__verif_boxed_divsteps_count(&f, &mut g) as u64;
+    let d = if fb > gb { fb } else { gb } as u64;
+    let num = 49 * d + if d < 46 { 80 } else { 57 };
+    assert!(17 * (m + 1) > num);
+    kani::cover!(gb > fb && fb > 62);
+    core::mem::forget((f, g));
+}
